@@ -139,6 +139,10 @@ func coordinate(prop, tierName string, seed int64) (*report.Report, error) {
 	}
 	rs = append(rs, extra)
 	MergeResults(r, rs)
+	if prop == "C19" {
+		c19Reuse(r)
+		r.Space += fmt.Sprintf(" Plus %d programs compiled once with closure.DebugCompile and evaluated 6 times against one debug.Record (two environments alternating): value and report equal to a one-shot yae.Debug each time.", len(c19ReusePrograms()))
+	}
 	if prop == "C16" {
 		// part (d) needs no program generator: it runs here, in the coordinator
 		c16HostData(r)
